@@ -264,35 +264,59 @@ class Lay:
 
 
 class Heap:
-    def __init__(self):
+    """name -> layered array. Arrays whose name ends in '.p' hold references; for each of their base / havoc arrays the
+    well-formedness fact 'every stored reference was allocated at that time' is queued in `pending` (drained into the pc)."""
+
+    def __init__(self, nref0=None):
         self.m = {}
         self.sorts = {}
-        self.epochs = []  # (eid, nentry, mods)
+        self.epochs = []  # (eid, nentry, mods, nref_after)
+        self.pending = []
+        self.nref0 = nref0
+        self.wf_done = set()
 
     def copy(self):
         h = Heap.__new__(Heap)
         h.m, h.sorts, h.epochs = dict(self.m), self.sorts, list(self.epochs)
+        h.pending, h.nref0, h.wf_done = self.pending, self.nref0, self.wf_done
         return h
 
     _eid = itertools.count()
 
+    def wf(self, name, arr, sort, bound):
+        if not name.endswith(".p") or bound is None or arr.get_id() in self.wf_done:
+            return
+        self.wf_done.add(arr.get_id())
+        r = z3.Int("r!wf")
+        if sort == I:
+            self.pending.append(z3.ForAll([r], z3.And(arr[r] >= 0, arr[r] < bound)))
+        elif isinstance(sort, z3.ArraySortRef) and sort.range() == I:
+            k = z3.Const("k!wf", sort.domain())
+            self.pending.append(z3.ForAll([r, k], z3.And(arr[r][k] >= 0, arr[r][k] < bound)))
+
     def get(self, name, sort):
         if name not in self.m:
             self.sorts[name] = sort
-            lay = Lay("base", arr=z3.Array("H." + name, I, sort))
-            for eid, nentry, mods in self.epochs:
-                lay = Lay("havoc", below=lay, nentry=nentry, mods=mods, new=z3.Array(f"H.{name}@{eid}", I, sort))
+            base = z3.Array("H." + name, I, sort)
+            self.wf(name, base, sort, self.nref0)
+            lay = Lay("base", arr=base)
+            for eid, nentry, mods, nref_after in self.epochs:
+                new = z3.Array(f"H.{name}@{eid}", I, sort)
+                self.wf(name, new, sort, nref_after)
+                lay = Lay("havoc", below=lay, nentry=nentry, mods=mods, new=new)
             self.m[name] = lay
         return self.m[name]
 
     def store(self, name, sort, ref, val):
         self.m[name] = Lay("store", below=self.get(name, sort), ref=ref, val=val)
 
-    def havoc(self, nentry, mods):
+    def havoc(self, nentry, mods, nref_after=None):
         eid = next(Heap._eid)
-        self.epochs.append((eid, nentry, mods))
+        self.epochs.append((eid, nentry, mods, nref_after))
         for name in list(self.m):
-            self.m[name] = Lay("havoc", below=self.m[name], nentry=nentry, mods=mods, new=z3.Array(f"H.{name}@{eid}", I, self.sorts[name]))
+            new = z3.Array(f"H.{name}@{eid}", I, self.sorts[name])
+            self.wf(name, new, self.sorts[name], nref_after)
+            self.m[name] = Lay("havoc", below=self.m[name], nentry=nentry, mods=mods, new=new)
         return eid
 
 
@@ -302,3 +326,14 @@ def arr_sort(elem_sort, key_sort=I):
 
 def sort_tag(sort):
     return {"Int": "i", "Real": "r", "Bool": "b"}[str(sort)]
+
+
+def stag(ty):
+    """storage tag of a type: r(eal) b(ool) p(ointer: heap reference) i(nt or atom)"""
+    if ty == "real" or strip_opt(ty) == "real":
+        return "r"
+    if strip_opt(ty) == "bool":
+        return "b"
+    if is_ref(ty):
+        return "p"
+    return "i"
